@@ -169,7 +169,7 @@ def getElementName(z=None, symbol=None):
     if z:
         element = elements.byZ[z]
     else:
-        element = elements.byName[symbol.upper()]
+        element = elements.bySymbol[symbol.upper()]
     return element.name
 
 
@@ -196,7 +196,7 @@ def getElementSymbol(z=None, name=None):
     if z:
         element = elements.byZ[z]
     else:
-        element = elements.byName[name.lower()]
+        element = elements.byName[name]
     return element.symbol
 
 
